@@ -237,7 +237,109 @@ HolesUniverseLaws ==
   /\ {"num", "pairs", "apairs"} \subseteq {o[1] : o \in HOrders}
   /\ (Universe # "Q" => {o[1] : o \in HOrders} = HReaders)
 
-Cases == Cases0 \cup HoleCases
+(* ---------------- family "refs" (round 8): ARGUMENT REFERENCES in the texts handed to the frame API ---------------- *)
+\* The text t handed to frame:preprocess / expandTemplate / callParserFunction is built in Lua (nothing substitutes it on
+\* the way) and holds {{{n}}} / {{{n|d}}} - bare, as argument of a call, inside #if, in a default - where the NAME n is
+\*   "1", "k": an argument of the enclosing template call AND of the #invoke;  "w", "f": of the enclosing call only;
+\*   "i": of the #invoke only;  "n": of neither
+\* x wrapper depth 0..2 x (wrapper called from wikitext | through frame:expandTemplate) x the value of the wrapper call's
+\* first argument as written on the page (plain, or itself a reference {{{k}}} - a page has no arguments, it stays as
+\* written and the frames carry that text) x whether the module reads the arguments before or after it calls the API.
+\* The statement: preprocess(t) = t expanded in the calling PAGE context: Eval in TopFrame, whatever the frames hold.
+RNamesQ == { <<"1">>, <<"k">>, <<"w">>, <<"i">>, <<"n">> }
+RNamesT == RNamesQ \cup { <<"f">>, <<"2">>, <<"SP", "k", "SP">> }
+RNames == IF Universe = "Q" THEN RNamesQ ELSE RNamesT
+TD == <<Txt(<<"d">>)>>
+RShapesOf(n) == { <<Par(n)>>, <<ParD(n, TD)>>,
+                  <<Call("T1", <<Pos(<<ParD(n, TD)>>), Named(<<"x">>, <<Par(n)>>)>>)>>,
+                  <<If(<<ParD(n, <<>>)>>, <<Txt(<<"yes">>)>>, <<Txt(<<"no">>)>>)>> }
+RShapesT(n) == { <<Txt(<<"a">>), Par(n), Txt(<<"SP">>), ParD(n, <<Call("Sp", <<>>)>>), Txt(<<"b">>)>>,
+                 <<If(<<Txt(<<"c">>)>>, <<Par(n)>>, <<Txt(<<"no">>)>>)>>,
+                 <<IfEq(<<ParD(n, TD)>>, TD, <<Txt(<<"same">>)>>, <<Txt(<<"diff">>)>>)>>,
+                 <<Call("St", <<Pos(<<ParD(n, <<>>)>>)>>)>> }
+\* two names in one text: a reference in the default of another one
+RNested == { <<ParD(<<"n">>, <<ParD(<<"k">>, <<Txt(<<"e">>)>>)>>)>>, <<ParD(<<"i">>, <<Par(<<"w">>)>>)>>,
+             <<ParD(<<"w">>, <<ParD(<<"1">>, TD)>>)>> }
+RFrags == UNION {RShapesOf(n) : n \in RNames} \cup RNested \cup {<<Txt(<<"t">>)>>}
+          \cup (IF Universe = "Q" THEN {} ELSE UNION {RShapesT(n) : n \in RNames})
+\* the first argument of the wrapper call as written on the page
+RWa1Q == { <<Txt(<<"Wone">>)>>, <<Par(<<"k">>)>>, <<Par(<<"w">>)>> }
+RWa1T == RWa1Q \cup { <<ParD(<<"k">>, TD)>>, <<Par(<<"n">>)>>, <<Txt(<<"p">>), Par(<<"1">>)>> }
+RWa1 == IF Universe = "Q" THEN RWa1Q ELSE RWa1T
+ROrders == {"args-first", "api-first"}
+\* the pages.  depth 1: the page calls {{Rw1|wa1|k=Wk|w=Ww|f=F}}, Rw1 holds <{{#invoke:M|{{{f}}}|I{{{1}}}|k=I{{{k}}}|i=Ii}}>
+\* (the #invoke's own arguments differ from the wrapper's in every value, "i" is its own, "w" and "f" are not handed on);
+\* depth 2: the page calls {{Rw2|..}}, Rw2 holds {{Rw1|{{{1}}}|k={{{k}}}|w={{{w}}}|f={{{f}}}}};
+\* depth 0: {{#invoke:M|F|I<wa1>|k=IWk|i=Ii}} on the page
+RWrap(c) == <<Pos(c.wa1), Named(<<"k">>, <<Txt(<<"Wk">>)>>), Named(<<"w">>, <<Txt(<<"Ww">>)>>), Named(<<"f">>, <<Txt(<<"F">>)>>)>>
+RFwd2 == <<Pos(<<Par(<<"1">>)>>), Named(<<"k">>, <<Par(<<"k">>)>>), Named(<<"w">>, <<Par(<<"w">>)>>), Named(<<"f">>, <<Par(<<"f">>)>>)>>
+RInv == <<Pos(<<Txt(<<"I">>), Par(<<"1">>)>>), Named(<<"k">>, <<Txt(<<"I">>), Par(<<"k">>)>>), Named(<<"i">>, <<Txt(<<"Ii">>)>>)>>
+RInv0(c) == <<Pos(<<Txt(<<"I">>)>> \o c.wa1), Named(<<"k">>, <<Txt(<<"I", "Wk">>)>>), Named(<<"i">>, <<Txt(<<"Ii">>)>>)>>
+RefCasesAll == { [fam |-> "refs", depth |-> d, via |-> v, wa1 |-> a, frag |-> fr, order |-> o] :
+                 d \in 0..2, v \in BOOLEAN, a \in RWa1, fr \in RFrags, o \in ROrders }
+RefCases == { c \in RefCasesAll : ~(c.depth = 0 /\ c.via) }
+\* through frame:expandTemplate: the function `via` invoked on the page hands what it sees on, all-named
+RSeenByVia(c) == Bind(RWrap(c), 1, 1, TopFrame, Lib, {})
+RViaArgs(c) == [j \in 1..Len(RSeenByVia(c)) |-> [named |-> TRUE, key |-> <<Txt(RSeenByVia(c)[j].key)>>, val |-> <<Txt(RSeenByVia(c)[j].val)>>]]
+ROuterB(c) == Bind(IF c.via THEN RViaArgs(c) ELSE RWrap(c), 1, 1, TopFrame, Lib, {})
+\* bindings of the enclosing template call (the parent frame) and of the #invoke (the module's frame)
+RParentB(c) == IF c.depth = 1 THEN ROuterB(c) ELSE Bind(RFwd2, 1, 1, Frame(ROuterB(c)), Lib, {})
+ROwnB(c) == IF c.depth = 0 THEN Bind(RInv0(c), 1, 1, TopFrame, Lib, {}) ELSE Bind(RInv, 1, 1, Frame(RParentB(c)), Lib, {})
+\* the text as the module writes it (what a reading that takes the Lua strings of expandTemplate / callParserFunction
+\* as plain text - MediaWiki's - substitutes)
+RECURSIVE Written(_), WrittenItem(_), WrittenArgs(_, _)
+WrittenItem(it) ==
+  CASE it.k = "t" -> it.s
+    [] it.k = "p" -> <<"{{{">> \o it.name \o (IF it.hasDef THEN <<"|">> \o Written(it.def) ELSE <<>>) \o <<"}}}">>
+    [] it.k = "c" -> <<"{{", it.name>> \o WrittenArgs(it.args, 1) \o <<"}}">>
+    [] it.k = "if" -> <<"{{#if:">> \o Written(it.c) \o <<"|">> \o Written(it.y) \o <<"|">> \o Written(it.n) \o <<"}}">>
+    [] it.k = "eq" -> <<"{{#ifeq:">> \o Written(it.a) \o <<"|">> \o Written(it.b) \o <<"|">> \o Written(it.y) \o <<"|">> \o Written(it.n) \o <<"}}">>
+Written(c) == IF c = <<>> THEN <<>> ELSE WrittenItem(Head(c)) \o Written(Tail(c))
+WrittenArgs(args, j) == IF j > Len(args) THEN <<>>
+                        ELSE <<"|">> \o (IF args[j].named THEN Written(args[j].key) \o <<"=">> ELSE <<>>) \o Written(args[j].val)
+                             \o WrittenArgs(args, j + 1)
+\* the equivalent calls of  expandTemplate{title = "T1", args = {t, x = t}}  and  callParserFunction("#if", t, t, "n")
+REtCall(v) == <<Call("T1", <<Named(<<"1">>, v), Named(<<"x">>, v)>>)>>
+RPfCall(v) == <<If(v, v, <<Txt(<<"n">>)>>)>>
+RFrameOf(c, who) == IF who = "page" \/ (c.depth = 0 /\ who = "parent") THEN TopFrame
+                    ELSE IF who = "parent" THEN Frame(RParentB(c)) ELSE Frame(ROwnB(c))
+RExpected(c) ==
+  [args |-> ROwnB(c), hasParent |-> c.depth > 0, pargs |-> IF c.depth > 0 THEN RParentB(c) ELSE <<>>,
+   ptitle |-> <<"Template:", "Rw1">>,
+   wrap |-> RWrap(c), inv0 |-> RInv0(c), written |-> Written(c.frag),
+   \* THE expectation: the page context
+   pre |-> Expand(c.frag, Lib, {}), et |-> Expand(REtCall(c.frag), Lib, {}), pf |-> Expand(RPfCall(c.frag), Lib, {}),
+   \* the Lua strings of expandTemplate / callParserFunction taken as plain text (MediaWiki's reading)
+   etLit |-> Expand(REtCall(<<Txt(Written(c.frag))>>), Lib, {}), pfLit |-> Expand(RPfCall(<<Txt(Written(c.frag))>>), Lib, {}),
+   \* for the report only: the same text resolved against the #invoke's own arguments (MediaWiki's reading of
+   \* frame:preprocess) / against the enclosing template call's arguments (no reading of the statement)
+   preOwn |-> Eval(c.frag, RFrameOf(c, "own"), Lib, {}),
+   preParent |-> Eval(c.frag, RFrameOf(c, "parent"), Lib, {}),
+   etParent |-> Eval(REtCall(c.frag), RFrameOf(c, "parent"), Lib, {}),
+   pfParent |-> Eval(RPfCall(c.frag), RFrameOf(c, "parent"), Lib, {}),
+   \* for the report only: the first argument as written on the page, resolved against the enclosing call's arguments
+   a1Parent |-> Eval(c.wa1, RFrameOf(c, "parent"), Lib, {})]
+\* laws: the module's arguments do not depend on the depth / the detour ...
+RefsDepthIndependent(c) == ROwnB(c) = ROwnB([c EXCEPT !.depth = 0, !.via = FALSE])
+                           /\ (c.depth = 2 => RParentB(c) = RParentB([c EXCEPT !.depth = 1]))
+                           /\ (c.via => RParentB(c) = RParentB([c EXCEPT !.via = FALSE]))
+\* ... and the universe tells the readings apart (non-vacuity): somewhere the page context, the #invoke's arguments and
+\* the enclosing call's arguments give three different texts, for every API; a reference takes its default / stays as
+\* written / flips an #if; a frame carries a value that is a reference left as written
+RefsUniverseLaws ==
+  LET E == {RExpected(c) : c \in {x \in RefCases : x.depth = 1 /\ ~x.via /\ x.order = "args-first"}} IN
+  /\ \E e \in E : e.pre # e.preOwn /\ e.pre # e.preParent /\ e.preOwn # e.preParent
+  /\ \E e \in E : e.et # e.etParent /\ e.et # e.etLit /\ e.etLit # e.etParent
+  /\ \E e \in E : e.pf # e.pfParent /\ e.pf # e.pfLit /\ e.pfLit # e.pfParent
+  /\ \E e \in E : e.pre = <<"d">> /\ e.preParent = <<"Ww">>
+  /\ \E e \in E : e.pre = <<"{{{", "w", "}}}">> /\ e.preParent = <<"Ww">>
+  /\ \E e \in E : e.pre = <<"no">> /\ e.preParent = <<"yes">>
+  /\ \E e \in E : e.pre = e.preOwn /\ e.pre = e.preParent /\ e.pre # e.written
+  /\ \E e \in E : \E j \in 1..Len(e.pargs) : e.pargs[j].key = <<"1">> /\ e.pargs[j].val = <<"{{{", "k", "}}}">>
+  /\ \E e \in E : \E j \in 1..Len(e.args) : e.args[j].key = <<"1">> /\ e.args[j].val = <<"I", "{{{", "w", "}}}">>
+  /\ \A c \in {x \in RefCases : x.depth = 0} : RExpected(c).preParent = RExpected(c).pre
+
+Cases == Cases0 \cup HoleCases \cup RefCases
 
 VARIABLE case
 Init == case \in Cases
@@ -279,7 +381,7 @@ Expected(c) ==
 
 \* laws: the frame construction is independent of the wrapper depth (arguments are
 \* forwarded verbatim / trimmed exactly once)
-DepthIndependent == case.fam # "holes" => LuaArgs(case) = LuaArgs([case EXCEPT !.depth = 0])
+DepthIndependent == case.fam \notin {"holes", "refs"} => LuaArgs(case) = LuaArgs([case EXCEPT !.depth = 0])
 \* the title is a function of the page reached, not of the spelling: the code path (candidate titles,
 \* one redirect hop) and the reference agree on every route, the supplier is a stored non-redirect page
 \* holding the wrapper body, and two routes reaching the same page see the same title
@@ -288,13 +390,18 @@ TitleLaws ==
   /\ \A r \in Routes : \E row \in Store : row.title = Supplier(r).title /\ row.ns = Supplier(r).ns
                                            /\ row.redirect = PS!NoRedirect /\ row.body = "W1"
   /\ CanonRoute \in Routes /\ Supplier(CanonRoute).title = TWrapBox
-ViaIndependent == (case.fam # "holes" /\ case.via) => LuaArgs(case) = LuaArgs([case EXCEPT !.via = FALSE])
-Emit == PrintT(<<"CASE", ToJson([case |-> case, exp |-> IF case.fam = "holes" THEN HExpected(case) ELSE Expected(case)])>>)
+ViaIndependent == (case.fam \notin {"holes", "refs"} /\ case.via) => LuaArgs(case) = LuaArgs([case EXCEPT !.via = FALSE])
+Emit == PrintT(<<"CASE", ToJson([case |-> case, exp |-> IF case.fam = "holes" THEN HExpected(case)
+                                                       ELSE IF case.fam = "refs" THEN RExpected(case) ELSE Expected(case)])>>)
 HoleLaws == case.fam = "holes" => HolesDepthIndependent(case) /\ HolesAgreeWithArgViews(case)
-GenInv == DepthIndependent /\ ViaIndependent /\ HoleLaws /\ Emit
+RefLaws == case.fam = "refs" => RefsDepthIndependent(case)
+GenInv == DepthIndependent /\ ViaIndependent /\ HoleLaws /\ RefLaws /\ Emit
 \* the store and the route universe, printed once (the harness installs exactly these pages)
 ASSUME TitleLaws
 ASSUME HolesUniverseLaws
+ASSUME RefsUniverseLaws
+ASSUME PrintT(<<"REFS", ToJson([inv |-> RInv, fwd2 |-> RFwd2, cases |-> Cardinality(RefCases), frags |-> Cardinality(RFrags),
+                                  names |-> RNames, wa1 |-> RWa1])>>)
 ASSUME PrintT(<<"HOLES", ToJson([nummax |-> HNumMax, strprobes |-> [i \in 1..Len(HStrProbes) |-> [probe |-> HStrProbes[i], int |-> IntKeyed(HStrProbes[i])]],
                                    orders |-> HOrders, cases |-> Cardinality(HoleCases), shapes |-> Cardinality(HShapes)])>>)
 ASSUME PrintT(<<"STORE", ToJson([adds |-> Adds, routes |-> Cardinality(Routes), unreachable |-> Cardinality(AllRoutes \ Routes)])>>)
